@@ -117,6 +117,21 @@ LAMBDA_BODIES = [[], [{"prim": "DROP"}, {"prim": "UNIT"}], [{"prim": "PUSH", "ar
                                                              {"prim": "SWAP"}, {"prim": "DROP"}]]
 
 
+def _P(name, *a):
+    return {"prim": name, "args": list(a)} if a else {"prim": name}
+
+
+# lambdas are plain code: they stay packable / duplicable / pushable / storable whatever types their signature mentions
+ODD_LAMBDAS = [
+    (T("lambda", T("ticket", T("nat")), T("unit")), [[_P("DROP"), _P("UNIT")]]),
+    (T("lambda", T("unit"), T("option", T("ticket", T("nat")))), [[_P("DROP"), _P("NONE", T("ticket", T("nat")))]]),
+    (T("lambda", T("big_map", T("nat"), T("nat")), T("nat")), [[_P("DROP"), _P("PUSH", T("nat"), {"int": "0"})]]),
+    (T("lambda", T("unit"), T("list", T("operation"))), [[_P("DROP"), _P("NIL", T("operation"))]]),
+    (T("lambda", T("contract", T("unit")), T("address")), [[_P("DROP"), _P("PUSH", T("address"), {"string": "tz1Ke2h7sDdakHJQh8WX4Z372du1KChsksyU"})]]),
+    (T("lambda", T("pair", T("ticket", T("string")), T("nat")), T("nat")), [[_P("CDR")]]),
+]
+
+
 def leaf_value(p):
     return {
         "int": ints(), "nat": ints(False), "mutez": mutez(), "timestamp": timestamps(), "string": mstrings(),
@@ -154,7 +169,7 @@ def types(depth=2, leaves=None, collections=True, lambdas=False, big_maps=False,
         opts += [st.builds(lambda a: T("list", a), sub), st.builds(lambda a: T("set", a), key),
                  st.builds(lambda a, b: T("map", a, b), key, sub)]
     if lambdas:
-        opts.append(st.just(T("lambda", T("unit"), T("unit"))))
+        opts.append(st.sampled_from([T("lambda", T("unit"), T("unit"))] * 3 + [lt for lt, _ in ODD_LAMBDAS]))
     if big_maps:
         opts.append(st.builds(lambda a, b: T("big_map", a, b), key, sub))
     if contracts:
@@ -185,10 +200,50 @@ def values(t, max_items=3, ptrs=False):
         return st.lists(st.tuples(values(a[0], max_items, ptrs), values(a[1], max_items, ptrs)), max_size=max_items + 1).map(
             lambda kv: _sorted_map(a[0], kv))
     if p == "lambda":
+        for lt, bodies in ODD_LAMBDAS:
+            if lt == t:
+                return st.sampled_from(bodies)
         return st.sampled_from(LAMBDA_BODIES)
     if p == "contract":
         return addresses(kinds=(0, 1), with_ep=True)
     return leaf_value(p)
+
+
+NO_ZERO = object()
+
+
+def zero(t):
+    """The inhabitant of t that Python code is most likely to mistake for "nothing" (empty / 0 / False / None); NO_ZERO if none."""
+    p, a = t["prim"], rv.targs(t)
+    if p in ("int", "nat", "mutez", "timestamp", "bls12_381_fr"):
+        return 0
+    if p == "string":
+        return ""
+    if p == "bytes":
+        return b""
+    if p == "bool":
+        return False
+    if p == "unit":
+        return ()
+    if p == "option":
+        return None
+    if p in ("list", "set", "map", "big_map"):
+        return []
+    if p == "pair":
+        l, r = zero(a[0]), zero(a[1])
+        return NO_ZERO if l is NO_ZERO or r is NO_ZERO else (l, r)
+    if p == "or":
+        l = zero(a[0])
+        return NO_ZERO if l is NO_ZERO else ("Left", l)
+    return NO_ZERO
+
+
+def values_z(t, max_items=3):
+    """values(t) with the zero-like inhabitant over-represented (one draw in three)"""
+    z = zero(t)
+    if z is NO_ZERO:
+        return values(t, max_items)
+    return st.one_of(values(t, max_items), values(t, max_items), st.just(z))
 
 
 def _consistent(t, vs):
